@@ -60,9 +60,17 @@ def frame_entry(prog, mtu_ok):
                          'sent_objs': sorted(set(str(sn.d['obj']) for sn, _c in sends(st))),
                          'new_icon_kept': 'heap:port.icon_image' in retained,
                          'entry_icon_live': 'heap:cached.icon' in live,
-                         'freed_weak': sum(1 for e, _ in effects(st, 'free') if e[1] == 'SEEN')})
+                         'freed_weak': sum(1 for e, _ in effects(st, 'free') if e[1] == 'SEEN'),
+                         'link_stores': [(e[2], e[3]) for e, _ in effects(st, 'weak-store') if e[1] == 'SEEN' and link_overlap(fs, e[2], e[3])]})
     nstates = sum(len(v) for v in res.values())
     return {'obs': obs, 'heap': heap, 'states': nstates, 'stats': {r: {'steps': s['steps'], 'loops': {k: {'induction': {str(a): b for a, b in v['induction'].items()}} for k, v in s['loops'].items()}} for r, s in stats.items()}}
+
+
+def link_overlap(fs, off, n):
+    """Does a store of n bytes at offset off (None = unknown) of an existing list node touch its link field?"""
+    from ..facts import WORD
+    lo = fs.prec.field('nextProbe')[1]
+    return off is None or (off < lo + WORD and lo < off + n)
 
 
 def ctor_entry(prog):
